@@ -29,7 +29,8 @@ import textwrap
 from pathlib import Path
 
 ROOT = Path(__file__).resolve().parents[2]
-OUT = ROOT / "lean" / "OPM" / "Gen" / "Routes.lean"
+from vp import core as _core  # the Lean project this run works in (private copy for scratch trees)
+OUT = _core.LEAN / "OPM" / "Gen" / "Routes.lean"
 
 UNIT_PARAMS = ("unit_id", "engine_id")
 RUN_PARAMS = ("run_id",)
